@@ -268,7 +268,75 @@ pub fn worker(ctx: &Ctx, res: &mut ShardResult) {
             if ctx.out_of_time() { res.caps.push("wall-clock budget reached".into()); return; }
         }
         res.count(&format!("family_size_{}", ql.name), if ctx.shard == 0 { fam.len() as u64 } else { 0 });
+        // (c) composition: inside a query of two patterns each pattern returns exactly what it returns alone. The sub-family
+        // has every ordered list of <= 3 negated fields on the first roots (negated-field lists of different patterns are
+        // stored in one shared table), plain and fielded patterns, an alternation and a quantified child.
+        let comp = composition_patterns(&ql);
+        let singles: Vec<Option<Query>> = comp.iter().map(|s| Query::new(&info.language, s).ok()).collect();
+        let mut alone: Vec<Vec<Vec<Binding>>> = vec![];
+        for q in &singles {
+            let mut per_tree = vec![];
+            if let Some(q) = q { for (text, tree, xt, _) in &trees { let mut b = run_matches(&mut cursor, q, tree, text, xt); b.sort(); per_tree.push(b); } }
+            alone.push(per_tree);
+        }
+        for (ai, a) in comp.iter().enumerate() { for (bi, b) in comp.iter().enumerate() {
+            if ai == bi { continue; }
+            idx += 1;
+            if !ctx.mine(idx) { continue; }
+            let (Some(_), Some(_)) = (&singles[ai], &singles[bi]) else { continue };
+            let src = format!("{}\n{}", a, b);
+            crate::case!("{}", case_json(ql.name, &src, b""));
+            res.states += 1;
+            let q = match Query::new(&info.language, &src) { Ok(q) => q, Err(e) => { res.violation("composition-rejected", format!("{:?} and {:?} are accepted alone but the two-pattern query is rejected: {:?}", a, b, e.kind), case_json(ql.name, &src, b"")); continue; } };
+            for (ti, (text, tree, xt, _)) in trees.iter().enumerate() {
+                res.transitions += 1;
+                let got = run_matches_by_pattern(&mut cursor, &q, tree, text, xt);
+                for (pi, which) in [(0usize, ai), (1usize, bi)] {
+                    let mut g: Vec<Binding> = got.iter().filter(|(p, _)| *p == pi).map(|(_, b)| b.clone()).collect();
+                    g.sort();
+                    if g != alone[which][ti] {
+                        res.violation("pattern-behaves-differently-inside-a-multi-pattern-query", format!("query {:?} on {:?}: pattern {} returns {:?}, alone it returns {:?}", src, String::from_utf8_lossy(text), pi, g, alone[which][ti]), case_json(ql.name, &src, text));
+                        break;
+                    }
+                }
+                if !got.is_empty() { res.nontrivial += 1; }
+                if res.too_many() { return; }
+            }
+            if ctx.out_of_time() { res.caps.push("wall-clock budget reached".into()); return; }
+        } }
+        res.count(&format!("composition_patterns_{}", ql.name), if ctx.shard == 0 { comp.len() as u64 } else { 0 });
     }
+}
+
+fn composition_patterns(q: &QLang) -> Vec<String> {
+    let mut out = vec![];
+    let roots: Vec<String> = q.roots.iter().filter_map(|r| match r { Kind::Named(n) => Some(n.clone()), _ => None }).take(3).collect();
+    let fields: Vec<&str> = q.fields.iter().copied().take(3).collect();
+    for r in &roots {
+        out.push(format!("({}) @r", r));
+        for f in &fields { out.push(format!("({} {}: (_) @a) @r", r, f)); }
+        // every ordered list of 1..3 distinct negated fields
+        let n = fields.len();
+        for a in 0..n { out.push(format!("({} !{}) @r", r, fields[a]));
+            for b in 0..n { if b == a { continue; } out.push(format!("({} !{} !{}) @r", r, fields[a], fields[b]));
+                for c in 0..n { if c == a || c == b { continue; } out.push(format!("({} !{} !{} !{}) @r", r, fields[a], fields[b], fields[c])); } } }
+    }
+    if let Some(r) = roots.first() { out.push(format!("[({}) (_ (_) @c)] @r", r)); out.push(format!("({} (_)* @s) @r", r)); out.push("(_) @any".to_string()); }
+    out
+}
+
+fn run_matches_by_pattern(cursor: &mut QueryCursor, query: &Query, tree: &Tree, text: &[u8], xt: &XTree) -> Vec<(usize, Binding)> {
+    let names = query.capture_names();
+    let id_to_idx: HashMap<usize, usize> = xt.nodes.iter().enumerate().map(|(i, n)| (n.id, i)).collect();
+    let mut out = vec![];
+    let mut it = cursor.matches(query, tree.root_node(), text);
+    while let Some(m) = it.next() {
+        let mut b: Binding = vec![];
+        for c in m.captures { b.push((names[c.index as usize].to_string(), *id_to_idx.get(&c.node.id()).unwrap_or(&usize::MAX))); }
+        out.push((m.pattern_index, b));
+        if out.len() > 20000 { break; }
+    }
+    out
 }
 
 pub fn replay(case: &Value) -> Vec<String> {
